@@ -2048,12 +2048,15 @@ impl<const N: usize, T> Default for CircularBuffer<N, T> {
 }
 
 impl<const N: usize, const M: usize, T> From<[T; M]> for CircularBuffer<N, T> {
-    fn from(mut arr: [T; M]) -> Self {
+    fn from(arr: [T; M]) -> Self {
+        // Take over the responsibility of dropping the elements of `arr`: if the destructor of a
+        // discarded element panics, `arr` must not be dropped again while unwinding
+        let mut arr = mem::ManuallyDrop::new(arr);
         #[cfg(feature = "unstable")]
         let mut elems = [const { MaybeUninit::uninit() }; N];
         #[cfg(not(feature = "unstable"))]
         let mut elems = unsafe { MaybeUninit::<[MaybeUninit<T>; N]>::uninit().assume_init() };
-        let arr_ptr = &arr as *const T as *const MaybeUninit<T>;
+        let arr_ptr = arr.as_ptr() as *const MaybeUninit<T>;
         let elems_ptr = &mut elems as *mut MaybeUninit<T>;
         let size = if N >= M { M } else { N };
 
@@ -2069,12 +2072,11 @@ impl<const N: usize, const M: usize, T> From<[T; M]> for CircularBuffer<N, T> {
         // Prevent destructors from running on those elements that we've taken ownership of; only
         // destroy the elements that were discareded
         //
-        // SAFETY: All elements in `arr` are initialized; `forget` will make sure that destructors
+        // SAFETY: All elements in `arr` are initialized; `ManuallyDrop` makes sure that destructors
         // are not run twice
         unsafe {
             ptr::drop_in_place(&mut arr[..M - size]);
         }
-        mem::forget(arr);
 
         Self {
             size,
